@@ -21,6 +21,8 @@ MutatorOps == {"Mkdir", "MkdirAll", "Create", "WriteFile", "Append", "Remove", "
 HandleActs == {"write", "writeat", "writestring", "truncate", "sync", "read", "close"}
 \* k encodes the open flags: 0 RDONLY, 1 WRONLY, 2 RDWR, +4 APPEND, +8 CREATE, +16 TRUNC, +32 EXCL
 Flags == {0, 1, 2, 5, 6, 9, 10, 17, 18, 26, 42, 8, 16}
+MCFlags == {0, 2, 10, 16}
+MCHandleActs == {"write", "truncate", "read"}
 
 ROCalls == Calls \cup {C("OpenHandle", p, Root, a, f) : p \in Paths, a \in HandleActs, f \in Flags}
 
@@ -29,7 +31,8 @@ RORes(c) ==
   ELSE IF c.op = "OpenHandle"
        THEN IF c.k # 0 THEN "EPERM"                              \* any write/create/truncate intent
             ELSE IF c.p \notin DOMAIN ref THEN "ENOENT"
-            ELSE IF c.c \in {"write", "writeat", "writestring", "truncate"} THEN "EPERM"
+            ELSE IF c.c \in {"write", "writeat", "writestring", "truncate"}
+                 THEN (IF ref[c.p].kind = "dir" THEN "EISDIR" ELSE "EPERM")   \* any refusal will do on a directory handle
             ELSE IF c.c = "read" /\ ref[c.p].kind = "dir" THEN "EISDIR"
             ELSE "ok"
        ELSE RefStep(ref, c).res
